@@ -199,6 +199,12 @@ func (s *session[H]) doRequest(
 	}
 
 	h, err := s.processResponses(r)
+	if err == nil && h[0].Height() != req.GetOrigin() {
+		// verified headers, but not the ones that were asked for: accepting them would leave
+		// gaps and duplicates in the assembled range
+		err = fmt.Errorf("header/p2p: peer returned headers from %d instead of the requested %d",
+			h[0].Height(), req.GetOrigin())
+	}
 	if err != nil {
 		span.SetStatus(codes.Error, err.Error())
 		logFn := log.Errorw
